@@ -10,7 +10,7 @@ values, which the structured model does not compute).  Keys are fixed small ids:
 5 countersignatory payment point, 6 broadcaster funding, 7 countersignatory funding; 0 = malformed.
 
 ops
-  setup <l|s|a|z> <outbound> <holderDelay> <cpDelay> <txid> <vout> <channelValue> <obscure>
+  setup <l|s|a|z> <outbound> <holderDelay> <cpDelay> <txid> <vout> <channelValue> <obscure> <strict>
   content <commitNum> <feerate> <toCs> <toBc> <rkRemote> <rkLocal> <rkAnchorB> <rkAnchorC> {o|r}:<value>:<hash>:<cltv>:<rank>…
         → canonical transaction rendering (or `panic`)
   p2 <ok|err|panic>                       → accept / reject of phase 2 on the current content
@@ -22,6 +22,7 @@ open VlsModel VlsModel.Bolt3 VlsModel.Drv
 abbrev H := Script
 
 structure St where
+  strict : Bool
   setup : Setup
   content : Content
   ranks : List (Spk H × Nat)
@@ -31,7 +32,7 @@ def keys : Keys := ⟨1, 2, 3, 4, 5, 6, 7⟩
 def okeyOf (ranks : List (Spk H × Nat)) (p : Spk H) : Nat := (ranks.lookup p).getD 0
 
 def initSetup : Setup := ⟨.staticRemoteKey, true, 6, 7, 2, 0, 3000000, 0⟩
-def init : St := ⟨initSetup, ⟨1, 0, 0, 0, [], []⟩, []⟩
+def init : St := ⟨true, initSetup, ⟨1, 0, 0, 0, [], []⟩, []⟩
 
 def ctype? : String → Option CType
   | "l" => some .legacy | "s" => some .staticRemoteKey | "a" => some .anchors | "z" => some .anchorsZeroFee
@@ -85,8 +86,9 @@ def htlcTok? (t : String) : Option (Bool × Htlc × Nat) :=
 def pol? : String → Option (Except Kind Unit)
   | "ok" => some (.ok ()) | "err" => some (.error .policy) | "panic" => some (.error .panic) | _ => none
 
-def envOf (pol : Except Kind Unit) : Env :=
-  { chanOk := true, pre := fun _ _ => pol, post := fun _ _ => true, fundingKey := 100, htlcKey := 101 }
+def envOf (strict : Bool) (pol : Except Kind Unit) : Env :=
+  { chanOk := true, pre := fun _ _ => pol, post := fun _ _ => true, mismatchIsError := strict,
+    fundingKey := 100, htlcKey := 101 }
 
 def crypto : Crypto H Unit Unit := ⟨fun _ => (), fun _ => (), fun _ _ => ()⟩
 
@@ -197,11 +199,11 @@ def mutate (tx : CTx H) (ws : List (Option Script)) : List String → Option (CT
 
 def step (st : St) (toks : List String) : St × String :=
   match toks with
-  | ["setup", t, ob, hd, cd, txid, vout, cv, obs] =>
-    match ctype? t, bool? ob, nat? hd, nat? cd, nat? txid, nat? vout, nat? cv, nat? obs with
-    | some t, some ob, some hd, some cd, some txid, some vout, some cv, some obs =>
-      ({ st with setup := ⟨t, ob, hd, cd, txid, vout, cv, obs⟩ }, "ok")
-    | _, _, _, _, _, _, _, _ => (st, "bad-op")
+  | ["setup", t, ob, hd, cd, txid, vout, cv, obs, strict] =>
+    match ctype? t, bool? ob, nat? hd, nat? cd, nat? txid, nat? vout, nat? cv, nat? obs, bool? strict with
+    | some t, some ob, some hd, some cd, some txid, some vout, some cv, some obs, some strict =>
+      ({ st with setup := ⟨t, ob, hd, cd, txid, vout, cv, obs⟩, strict := strict }, "ok")
+    | _, _, _, _, _, _, _, _, _ => (st, "bad-op")
   | "content" :: cn :: fr :: toCs :: toBc :: rR :: rL :: rA :: rC :: hts =>
     match nat? cn, nat? fr, nat? toCs, nat? toBc, nat? rR, nat? rL, nat? rA, nat? rC, hts.mapM htlcTok? with
     | some cn, some fr, some toCs, some toBc, some rR, some rL, some rA, some rC, some hts =>
@@ -219,7 +221,7 @@ def step (st : St) (toks : List String) : St × String :=
   | ["p2", pol] =>
     match pol? pol with
     | some pol =>
-      match phase2 id (okeyOf st.ranks) crypto (envOf pol) st.setup keys st.content with
+      match phase2 id (okeyOf st.ranks) crypto (envOf st.strict pol) st.setup keys st.content with
       | .ok (_, hs) => (st, s!"accept {hs.length}")
       | .error _ => (st, "reject")
     | none => (st, "bad-op")
@@ -231,7 +233,7 @@ def step (st : St) (toks : List String) : St × String :=
       | none => (st, "bad-op")
       | some (tx', ws') =>
         let c := st.content
-        match phase1 id (okeyOf st.ranks) crypto (envOf pol) st.setup keys tx' ws' c.commitNum c.feerate c.offered c.received with
+        match phase1 id (okeyOf st.ranks) crypto (envOf st.strict pol) st.setup keys tx' ws' c.commitNum c.feerate c.offered c.received with
         | .ok _ =>
           match decode id st.setup keys tx' ws' with
           | some info => (st, s!"accept {info.csVal} {info.bcVal}")
